@@ -7,7 +7,7 @@
    priority-sorted ANP list (C02_admin_order_irrelevant).  What is only sampled: the real map-iteration
    schedules of the Go runtime in code the mirror abstracts (dot output, exposure tables, Errors() order). *)
 From Coq Require Import List ZArith Bool String Permutation Sorting.Sorted.
-From NP Require Import IntervalSet ConnSet World Eval EvalProofs Build Connlist Diff Format SortGeneric FormatProofs OrderProofs DotProofs XFormat XFormatProofs XFormatMore XFormatMoreProofs.
+From NP Require Import IntervalSet ConnSet World Eval EvalProofs Build Connlist Diff Format SortGeneric FormatProofs OrderProofs DotProofs XFormat XFormatProofs XFormatMore XFormatMoreProofs DiffDot DiffDotProofs.
 Import ListNotations.
 
 (* sorting strings is a function of the multiset, and any correct sort.Strings computes it *)
@@ -83,6 +83,10 @@ Print Assumptions C08_diff_txt_order_independent.
 Theorem C08_diff_md_order_independent d1 d2 : Permutation d1 d2 -> diff_md d1 = diff_md d2.
 Proof. exact (diff_md_perm_invariant d1 d2). Qed.
 Print Assumptions C08_diff_md_order_independent.
+Theorem C08_diff_dot_order_independent d d' ps ps' :
+  Permutation d d' -> Permutation ps ps' -> NoDup (map dp_str ps) -> diff_dot d ps = diff_dot d' ps'.
+Proof. exact (diff_dot_perm_invariant d d' ps ps'). Qed.
+Print Assumptions C08_diff_dot_order_independent.
 Theorem C08_diff_csv_order_independent d1 d2 : Permutation d1 d2 -> diff_csv d1 = diff_csv d2.
 Proof. exact (diff_csv_perm_invariant d1 d2). Qed.
 Print Assumptions C08_diff_csv_order_independent.
